@@ -370,6 +370,9 @@ static void *ares_event_thread(void *arg)
       }
     }
 
+    if (tvout != NULL) {
+      CARES_VERIF_TRACE("hint", tvout->tv_sec, tvout->tv_usec);
+    }
     CARES_VERIF_TRACE("wait", timeout_ms, tvout != NULL);
     e->ev_sys->wait(e, timeout_ms);
     CARES_VERIF_TRACE("woke", 0, 0);
